@@ -3,7 +3,7 @@
 (* driver only converts text to the [json] datatype and back.                       *)
 From LCM Require Import Base.Prelude Base.Arr Base.ArrOps Base.PyVal Base.Json Base.QKernel.
 From LCM Require Import Gen.GridHelpersQ Gen.NdimageKernel Gen.GridValidate Gen.DiscreteNoShocks Gen.Argmax.
-From LCM Require Import Spec.Interp Spec.GridRules Model.Ndimage Model.Grids Model.Functools Model.Dispatchers Model.Decode Model.RandomChoice.
+From LCM Require Import Spec.Interp Spec.GridRules Model.Ndimage Model.Grids Model.Functools Model.Dispatchers Model.Decode Model.RandomChoice Model.StateSpace Model.FunctionRepresentation.
 Local Open Scope string_scope.
 
 Definition jpyval (j : json) : option pyval :=
@@ -138,6 +138,23 @@ Definition run_kernel (fn : string) (c : json) : option json :=
     do n_ids <- jfield_of jnat "n_ids" c ;; do t <- jfield_of jnat "t" c ;;
     do j <- jfield_of jnat "j" c ;; do i <- jfield_of jnat "i" c ;;
     Some (of_list of_nat (draw_key [] n_ids t j i))
+  else if String.eqb fn "state_space" then run_state_space c
+  else if String.eqb fn "indexers_and_segments" then
+    do mask <- jfield_of (jarr jbool) "mask" c ;; do n <- jfield_of jnat "n_sparse_states" c ;;
+    let r := create_indexers_and_segments mask n in
+    Some (JObj [("state_indexer", of_arr JInt (state_indexer r));
+                ("segment_ids", of_list of_nat (segment_ids_r r));
+                ("num_segments", of_nat (num_segments_r r));
+                ("combinations", of_list (of_list of_nat) (true_positions mask))])
+  else if String.eqb fn "funrep" then
+    do vf <- jfield_of (jarr jq) "vf_arr" c ;;
+    let ix := match jfield "indexer" c with Some JNull => None | Some j => jarr jint j | None => None end in
+    do rl <- jfield_of (jlist_of jint) "restricted_labels" c ;;
+    do dl <- jfield_of (jlist_of jint) "dense_labels" c ;;
+    do cs <- jfield_of (jlist_of (fun j => match j with
+                                           | JList [a; b; n; v] => do a' <- jq a ;; do b' <- jq b ;; do n' <- jnat n ;; do v' <- jq v ;; Some (mkCont a' b' n' v')
+                                           | _ => None end)) "conts" c ;;
+    Some (of_q (function_representation vf ix rl dl cs))
   else if String.eqb fn "lin_points" then
     do a <- jfield_of jq "start" c ;; do b <- jfield_of jq "stop" c ;; do n <- jfield_of jnat "n" c ;;
     Some (of_list of_q (lin_points a b n))
